@@ -142,14 +142,24 @@ pub fn c05_ops(b: &Base) -> Vec<Op> {
 pub fn c05_parser_ops(b: &Base) -> Vec<Op> {
     let (c, l) = (b.columns, b.lines);
     let mut v = Vec::new();
-    let ps: Vec<String> =
-        vec!["".into(), "0".into(), "1".into(), "2".into(), format!("{}", c.max(l) + 1), "9999".into()];
+    let ps: Vec<String> = vec![
+        "".into(),
+        "0".into(),
+        "1".into(),
+        "2".into(),
+        format!("{}", c.max(l) + 1),
+        "9999".into(),
+        "00002".into(),
+        "0000000001".into(),
+        "10000".into(),
+        "12345678".into(),
+    ];
     for f in ['A', 'B', 'C', 'D', 'E', 'F', 'G', 'a', 'd', 'e'] {
         for p in &ps {
             v.push(csi(p, f));
         }
     }
-    let small = ["", "0", "1", "2", "3", "9999"];
+    let small = ["", "0", "1", "2", "3", "9999", "00002"];
     for f in ['H', 'f'] {
         for a in small {
             v.push(csi(a, f));
@@ -364,6 +374,11 @@ pub fn c13(c: &Collector, g: &mut Guard) {
                 if is_c13_judged(t.op) {
                     local.count("bfs_judged");
                     refine_all(c, "C13", "E2.bfs", t, local)
+                } else if matches!(t.op, Op::Resize(..)) && t.script.iter().any(|o| matches!(o, Op::Ich(_) | Op::Dch(_) | Op::Draw(_))) {
+                    // "discarded characters never reappear": anything an earlier edit parked
+                    // outside the row shows up as a grid mismatch when the screen grows
+                    local.count("bfs_resize_after_edit");
+                    refine(c, "C13", "E2.bfs.resurface", t, &[crate::refscreen::Comp::Grid], local) && expand_ok(t)
                 } else {
                     expand_ok(t)
                 }
@@ -592,12 +607,18 @@ pub fn c04(c: &Collector, g: &mut Guard) {
                     Op::Sm(vec![7], true),
                     Op::Rm(vec![7], true),
                     Op::Display,
+                    Op::Resize(None, Some(cc + 1)),
+                    Op::Resize(Some(l + 1), None),
                 ]
             },
             |c, t, local| {
                 if matches!(t.op, Op::Draw(_)) {
                     local.count("bfs_judged");
                     refine_all(c, "C04", "E2.bfs", t, local)
+                } else if matches!(t.op, Op::Resize(..)) && t.script.iter().any(|o| matches!(o, Op::Draw(_))) {
+                    // "what crosses the right edge is lost": it must not come back when the screen grows
+                    local.count("bfs_resize_after_draw");
+                    refine(c, "C04", "E2.bfs.resurface", t, &[crate::refscreen::Comp::Grid], local) && expand_ok(t)
                 } else {
                     expand_ok(t)
                 }
